@@ -19,6 +19,7 @@ const (
 	whatTaskEarly  = "a call returned before the background task of its buffer completed"
 	whatTaskErr    = "a background task's error was dropped although the data was fine"
 	whatProgData   = "a buffer delivered bytes that differ from the blob"
+	whatAbandon    = "a task returned without consuming or discarding its buffer"
 	whatPeer       = "the owner of another handle of a stream clone failed although the blob and all tasks were fine"
 	whatProgChunk  = "a chunk reader delivered a chunk larger than asked for"
 )
@@ -27,10 +28,10 @@ const (
 func (c *progCase) taskUnderClone() bool {
 	seenTask := false
 	for _, t := range c.toks {
-		if seenTask && (strings.HasPrefix(t, "cs.") || strings.HasPrefix(t, "cc.") || strings.HasPrefix(t, "rp.")) {
+		if seenTask && (strings.HasPrefix(t, "cs.") || strings.HasPrefix(t, "cc.") || strings.HasPrefix(t, "rp.") || strings.HasPrefix(t, "rs.")) {
 			return true
 		}
-		if strings.HasPrefix(t, "wt.") || strings.HasPrefix(t, "rp.") {
+		if strings.HasPrefix(t, "wt.") || strings.HasPrefix(t, "rp.") || strings.HasPrefix(t, "rs.") {
 			seenTask = true
 		}
 	}
@@ -44,11 +45,30 @@ func (c *progCase) peersShouldSucceed() bool {
 		return false
 	}
 	for _, t := range c.toks[1:] {
-		if (strings.HasPrefix(t, "wt.") || strings.HasPrefix(t, "rp.")) && !strings.HasSuffix(t, ".0") {
+		if (strings.HasPrefix(t, "wt.") || strings.HasPrefix(t, "rp.")) && !strings.HasSuffix(t, ".0") || c.abandons() {
 			return false
 		}
 	}
 	return true
+}
+
+// abandons: the program itself leaves a handle of a clone unconsumed (sib = a)
+func (c *progCase) abandons() bool {
+	for _, t := range c.toks {
+		if (strings.HasPrefix(t, "cs.") || strings.HasPrefix(t, "rp.")) && strings.Contains(t, ".a") {
+			return true
+		}
+	}
+	return false
+}
+
+func (c *progCase) realReplicator() bool {
+	for _, t := range c.toks {
+		if strings.HasPrefix(t, "rs.") {
+			return true
+		}
+	}
+	return false
 }
 
 // syncTaskFailed: a task that ran in the foreground (inside WithTask) returned an error.
@@ -78,12 +98,12 @@ func (c *progCase) topChain(p *progRun) []int {
 	var out []int
 	for i := len(c.toks) - 1; i >= 1; i-- {
 		t := c.toks[i]
-		if strings.HasPrefix(t, "wt.") || strings.HasPrefix(t, "rp.") {
+		if strings.HasPrefix(t, "wt.") || strings.HasPrefix(t, "rp.") || strings.HasPrefix(t, "rs.") {
 			id--
 			if id >= 0 && !p.tasks[id].ranSync {
 				out = append(out, id)
 			}
-			if strings.HasPrefix(t, "rp.") {
+			if !strings.HasPrefix(t, "wt.") {
 				break // underneath is a stream clone
 			}
 			continue
@@ -157,9 +177,23 @@ func (c *progCase) oracle(p *progRun) (whats []string, detail string) {
 	if panicked {
 		return whats, detail // what follows a panic (leaked handles) is a consequence
 	}
+	if c.abandons() {
+		return whats, detail // the program breaks the contract of CloneStream itself; the model says what happens
+	}
 	if p.stuck || !p.mainDone.Load() {
+		for _, sk := range p.sinks {
+			if sk.puts.Load() == 0 {
+				add(whatAbandon, "ReplicateSingle's task ended without handing its clone to sink.Put or discarding it; the consumer of the returned buffer blocks for ever")
+			}
+		}
 		add(whatProgStuck, "the bubble ended with blocked goroutines, all tasks released")
 		return whats, detail
+	}
+	for _, sk := range p.sinks {
+		if sk.puts.Load() == 0 {
+			add(whatAbandon, "ReplicateSingle's task ended without handing its clone to sink.Put or discarding it")
+			return whats, detail
+		}
 	}
 	for i, s := range p.sibs {
 		if !s.done.Load() {
@@ -229,6 +263,9 @@ func (c *progCase) modelLine(legacy, ratLegacy bool) string {
 	}
 	var toks []string
 	for _, t := range c.toks {
+		if strings.HasPrefix(t, "rs.") {
+			t = "rp.l.r.0" // ReplicateSingle is the replication pattern with a sink that reads everything
+		}
 		toks = append(toks, t)
 	}
 	return fmt.Sprintf("prog %d %d %s ; %s ; %s", rep, rat, hexOr(c.content), strings.Join(toks, " "), strings.Join(c.method, " "))
@@ -292,6 +329,12 @@ func (e *env) prepareProg(name string, script []string) *queued {
 			return false, fmt.Sprintf("%q: impl=%q model=%q %s", q.lines[0], impl, r[0], d), il, ml
 		}
 		f := strings.Fields(r[0])
+		if r[0] == "blocked" {
+			if strings.HasPrefix(impl, "stuck") {
+				return true, "", il, ml
+			}
+			return bad("the program abandons a handle of a stream clone and yet the call returned")
+		}
 		if r[0] == "buildpanic" || (len(f) > 0 && f[0] == "res=panic") {
 			// after a panic handles leak: the call of another goroutine may be the one that panics
 			if strings.HasPrefix(impl, "buildpanic") || strings.HasPrefix(impl, "res=panic") || strings.HasPrefix(impl, "stuck") || len(q.oracle) > 0 {
@@ -306,6 +349,14 @@ func (e *env) prepareProg(name string, script []string) *queued {
 		if c.method[0] == "iwf" && p.res == fmt.Sprintf("err:%d", writerErrCode) {
 			// the writer failed: the model's result is the one for a surviving writer
 			want = "res=" + p.res + " " + f[1] + " " + f[2] + " " + f[5]
+		}
+		if c.realReplicator() && c.peersShouldSucceed() == false {
+			// the real task returns what sink.Put returned, i.e. the error of the data; it can
+			// only surface as the error of the reader's Close
+			if i := strings.Fields(impl); len(i) == 4 && f[2] == "cerr=-" && i[2] != "cerr=-" {
+				i[2] = "cerr=-"
+				impl = strings.Join(i, " ")
+			}
 		}
 		if want != impl {
 			return bad("")
